@@ -47,7 +47,12 @@ HAND = [
         "opt": {"type": ["string", "null"], "default": "x"},
         "nul": {"type": ["integer", "null"], "default": None},
         "flag": {"type": "boolean", "default": True},
-        "inner": {"type": "object", "properties": {"a": {"type": "integer"}, "b": {"type": "array", "items": {"type": "integer"}}}, "default": {"a": 1}}}}}},
+        "inner": {"type": "object", "properties": {"a": {"type": "integer"}, "b": {"type": "array", "items": {"type": "integer"}}}, "default": {"a": 1}}}},
+                     # REQUIRED members that carry the empty default of their type: required all the same
+                     "Rq": {"type": "object", "required": ["name", "tracks", "labels", "owner"], "properties": {
+        "name": {"type": "string"}, "tracks": {"type": "array", "items": {"type": "string"}, "default": []},
+        "labels": {"type": "object", "additionalProperties": {"type": "string"}, "default": {}},
+        "owner": {"type": ["string", "null"], "default": None}}}}},
     # typed integer enumerations that list the bounds of every recognised format (values beyond i64 included)
     {"definitions": dict(
         [("E" + f.capitalize(), {"type": "integer", "format": f, "enum": [lo, 0, hi] if lo < 0 else [0, 1, hi]})
